@@ -38,6 +38,10 @@ C03(r) ==
     cg_every_event_once|-> r.cgErr = "" => EachThread(r, LAMBDA th : Once(Ev(th), th.cg) /\ ParentsClosed(th.cg)),
     cg_parent_positive |-> r.cgErr = "" => EachThread(r, LAMBDA th : Once(Ev(th), th.cg) => PositiveParents(Ev(th), ParFn(th.cg))),
     cg_zero_parent     |-> r.cgErr = "" => EachThread(r, LAMBDA th : Once(Ev(th), th.cg) => ZeroParents(Ev(th), ParFn(th.cg))),
+    cgn_every_event_once |-> r.cgErr = "" => EachThread(r, LAMBDA th : Once(Ev(th), th.cgn) /\ ParentsClosed(th.cgn)),
+    cgn_parent_positive  |-> r.cgErr = "" => EachThread(r, LAMBDA th : Once(Ev(th), th.cgn) => PositiveParents(Ev(th), ParFn(th.cgn))),
+    cgn_zero_parent      |-> r.cgErr = "" => EachThread(r, LAMBDA th : Once(Ev(th), th.cgn) => ZeroParents(Ev(th), ParFn(th.cgn))),
+    cgn_depth            |-> r.cgErr = "" => EachThread(r, LAMBDA th : (Once(Ev(th), th.cgn) /\ ParentsClosed(th.cgn)) => DepthOK(Ev(th), ParFn(th.cgn), DepFn(th.cgn))),
     cg_depth           |-> r.cgErr = "" => EachThread(r, LAMBDA th : (Once(Ev(th), th.cg) /\ ParentsClosed(th.cg)) => DepthOK(Ev(th), ParFn(th.cg), DepFn(th.cg))) ]
 
 C03Tags(r) == (IF \E th \in Threads(r) : ZeroAtTouch(Ev(th)) THEN {"shape:zero_at_touch"} ELSE {}) \cup
